@@ -47,6 +47,14 @@ def _cases(tier, rng):
                     yield {'kind': 'plain', 'term': pre + [op], 'items': xs}
                 if rng.random() < 0.25:
                     yield {'kind': 'mux', 'term': [['group_by', ['mod', 2], pre + [op]]], 'items': xs + xs}
+    # keys whose comparisons answer with ints (1 / 0: truthy but not `True`, as numpy scalars do): outside the model's values,
+    # judged by the list semantics alone
+    for xs in ([0, 1, 2, 3, 4, 5, 6, 7], [1, 1, 2, 2, 5, 4], [3], [0, 3, 1, 2, 6, 7, 7]):
+        for km in (['neint_of', 2], ['neint_of', 3]):
+            yield {'kind': 'mux', 'term': [['duc', km]], 'items': xs, 'no_model': True}
+            yield {'kind': 'plain', 'term': [['duc', km]], 'items': xs, 'no_model': True}
+            yield {'kind': 'mux', 'term': [['group_by', ['mod', 2], [['duc', km]]]], 'items': xs + xs, 'no_model': True}
+            yield {'kind': 'mux', 'term': [['distinct', km]], 'items': xs, 'no_model': True}
     # values whose hashes collide in CPython (hash(-1) == hash(-2)), big ints, equal-but-not-identical keys
     for _ in range({'quick': 40, 'thorough': 600, 'search': 60}[tier]):
         xs = [rng.choice([-1, -2, 0, 2 ** 61 - 1, -1, -2]) for _ in range(rng.choice([2, 3, 5, 8]))]
@@ -81,6 +89,8 @@ _base_cmds = model_cmds
 
 
 def model_cmds(case):   # noqa: F811
+    if case.get('no_model'):
+        return []
     if case['kind'] == 'sort':
         return [{'cmd': 'sort', 'items': case['items'], 'key': case['key'], 'reverse': case['reverse']}]
     return _base_cmds(case)
@@ -90,6 +100,8 @@ _base_res = model_result
 
 
 def model_result(case, ans):   # noqa: F811
+    if case.get('no_model'):
+        return {}
     if case['kind'] == 'sort':
         if 'error' in ans[0]:
             return {'model_error': ans[0]['error']}
@@ -101,6 +113,8 @@ _base_cmp = compare
 
 
 def compare(case, r, m):   # noqa: F811
+    if case.get('no_model'):
+        return None
     if case['kind'] == 'sort':
         if 'model_error' in m:
             return 'model: ' + m['model_error']
